@@ -55,10 +55,10 @@ impl Check for C12C {
         "C12"
     }
     fn stages(&self, tier: Tier) -> Vec<String> {
-        stages_for(tier.pick(2, 3))
+        stages_for(tier.pick(2, 4))
     }
     fn prepare(&self, stage: &str, tier: Tier, input: &[String]) -> Box<dyn Space> {
-        let depth = tier.pick(2, 3);
+        let depth = tier.pick(2, 4);
         let docs = initial_docs();
         let frontier = if stage == "bfs0" { (0..docs.len()).map(|i| (i, vec![])).collect() } else { parse_frontier(input) };
         Box::new(DomBfs {
@@ -77,7 +77,7 @@ impl Check for C12C {
         Meta {
             rule: "explicit-state breadth-first search over DOM call histories on the real xml_dom objects: a state is the history reaching it (re-executed from a fresh parse), de-duplicated by a canonical key (labelled forest of all live handles: kind, name, value, parent, child list, attribute map, owner; plus the rank vector of all order keys). Alphabet: append_child / insert_before / replace_child / remove_child with every receiver and every argument among all live handles (attached, detached, created, foreign, the document, attributes, text; reference argument: every child plus a non-child, the new child itself and a foreign node), the create_* factories, set/remove attribute (by name, by node, through the NamedNodeMap), split_text at every offset. After every transition (successful or failed) the tree invariants are evaluated on every live handle. Non-trivial transition = the call succeeded or changed the state.",
             bounds_quick: "8 initial documents (2 in the merged-text view), history depth 2, at most 1 created node per history",
-            bounds_thorough: "8 initial documents (2 in the merged-text view), history depth 3, at most 1 created node per history",
+            bounds_thorough: "8 initial documents (2 in the merged-text view), history depth 4, at most 1 created node per history",
             assumptions: &["node identity = (node kind, XmlNode::id()); handles are assigned in a deterministic walk order so that histories replay exactly"],
             unbounded_total: false,
         }
